@@ -230,6 +230,9 @@ def exc_mechanism(fmt, gtype, exc, text):
 
 
 # ------------------------------------------------------------------ channels
+os.environ.setdefault("VMONVAR", "expanded")
+
+
 class Scratch:
     def __enter__(self):
         self.dir = tempfile.mkdtemp(prefix="c14.", dir="/tmp")
@@ -241,7 +244,10 @@ class Scratch:
 
     def path(self, ext):
         self.k += 1
-        return os.path.join(self.dir, "g%d%s" % (self.k, ("." + ext) if ext else ""))
+        # some names contain what a shell would expand ($VMONVAR and ${VMONVAR} are defined in the environment, ~ is
+        # every user's home): a file name is a file name
+        stem = ("g%d", "g%d$VMONVAR", "g%d${VMONVAR}x", "~g%d", "g%d", "g%d$HOME")[self.k % 6] % self.k
+        return os.path.join(self.dir, stem + (("." + ext) if ext else ""))
 
 
 def write_text(ctx, G, gtype, fmt):
@@ -1134,6 +1140,28 @@ def case_size_sweep(ctx, gtype, fmt, sizes):
             judge_roundtrip(ctx, desc, gtype, fmt, "stringio", stage, st, val, text=text, fmts=fmts)
 
 
+def case_huge_sparse(ctx, gtype):
+    """Graphs with more than 2^20 vertices and a handful of edges (among them pairs that differ by 2^20 in one endpoint,
+    which collide in any packed 20-bit representation): written and read back in the formats that stay small."""
+    g = G_()
+    n = (1 << 20) + 8
+    with Scratch() as scratch:
+        if gtype == "bipartite":
+            shape = (n, 3)
+            edges = [(5, 2), ((1 << 20) + 5, 1), (n, 3), (1, 1), ((1 << 20) + 1, 2), (1, 3)]
+            fmts = ("kthlist", "matrix")
+        else:
+            shape = (n,)
+            edges = [(5, (1 << 20) + 6), (4, 5), ((1 << 20) + 5, n), (1, n), (2, 3)]
+            fmts = ("kthlist", "dimacs")
+        desc = desc_of(gtype, shape, edges)
+        G = build(desc, order=list(reversed(edges)))
+        for fmt in fmts:
+            stage, st, val, text, f2 = transport(ctx, G, gtype, fmt, "stringio", scratch, ctx.rng("huge", gtype, fmt))
+            ctx.count("huge_sparse_roundtrips")
+            judge_roundtrip(ctx, desc, gtype, fmt, "stringio", stage, st, val, text=text, fmts=f2)
+
+
 LOCALE_SCRIPT = r"""
 import json, os, sys, random
 sys.path.insert(0, sys.argv[1])
@@ -1219,6 +1247,8 @@ def case_locale(ctx, rseed):
 def workload(tier, seed):
     quick = tier == "quick"
     TYPES = ("simple", "digraph", "dag", "bipartite")
+    yield "huge_sparse", {"gtype": "bipartite"}
+    yield "huge_sparse", {"gtype": "simple"}
     yield "locale", {"rseed": seed}
     for gtype in ("simple", "dag", "digraph", "bipartite"):
         for fmt in {"simple": ["kthlist", "gml", "dimacs"], "digraph": ["kthlist", "gml", "dimacs"], "dag": ["kthlist", "gml", "dimacs"],
